@@ -501,6 +501,14 @@ class _Expr(ast.NodeTransformer):
                 return ast.Call(func=ast.Name(id="__prod", ctx=ast.Load()), args=[node.args[1]], keywords=[])
         if fname in ("math.prod", "prod") and len(node.args) == 1 and not node.keywords:
             return ast.Call(func=ast.Name(id="__prod", ctx=ast.Load()), args=[node.args[0]], keywords=[])
+        # any(a and b for G)  ->  any(b for G if a)       (truth of the whole is the same; a is evaluated first either way)
+        if isinstance(f, ast.Name) and f.id == "any" and len(node.args) == 1 and isinstance(node.args[0], ast.GeneratorExp):
+            g = node.args[0]
+            if isinstance(g.elt, ast.BoolOp) and isinstance(g.elt.op, ast.And) and len(g.elt.values) >= 2:
+                gens = list(g.generators)
+                last = gens[-1]
+                gens[-1] = ast.comprehension(target=last.target, iter=last.iter, ifs=last.ifs + g.elt.values[:-1], is_async=0)
+                return self.visit(ast.Call(func=f, args=[ast.GeneratorExp(elt=g.elt.values[-1], generators=gens)], keywords=[]))
         # any(any(C for G1) for G2) -> any(C for G2 for G1)
         if isinstance(f, ast.Name) and f.id in ("any", "all") and len(node.args) == 1 and isinstance(node.args[0], ast.GeneratorExp):
             g = node.args[0]
@@ -540,6 +548,11 @@ class _Expr(ast.NodeTransformer):
         return node
 
     def _flatten_gens(self, node):
+        for g in node.generators:
+            ifs = []
+            for i_ in g.ifs:
+                ifs.extend(i_.values if isinstance(i_, ast.BoolOp) and isinstance(i_.op, ast.And) else [i_])
+            g.ifs = ifs
         gens = []
         for g in node.generators:
             it = g.iter
@@ -703,15 +716,15 @@ def n_comp(block, owner, field):
                     return [ast.If(test=negate(b_[0].test), body=rest, orelse=[])]
                 return b_
 
-            cur.body = _unguard(cur)
-            while isinstance(cur, ast.For) and not cur.orelse and len(cur.body) == 1 and isinstance(cur.body[0], (ast.For, ast.If)):
+            cur_body = _unguard(cur)
+            while isinstance(cur, ast.For) and not cur.orelse and len(cur_body) == 1 and isinstance(cur_body[0], (ast.For, ast.If)):
                 parts.append(("for", cur.target, cur.iter))
-                inner = cur.body[0]
+                inner = cur_body[0]
                 if isinstance(inner, ast.If):
                     cur = inner
                     break
                 cur = inner
-                cur.body = _unguard(cur)
+                cur_body = _unguard(cur)
             if isinstance(cur, ast.If) and not cur.orelse and parts:
                 body = cur.body
                 gens = _mk_generators(parts)
@@ -1260,6 +1273,9 @@ def _inlinable(h):
     body = [s for s in h.body if not (isinstance(s, ast.Expr) and isinstance(s.value, ast.Constant))]
     if not body:
         return None
+    if any(isinstance(n, ast.Call) and ((isinstance(n.func, ast.Name) and n.func.id == h.name) or (
+            isinstance(n.func, ast.Attribute) and n.func.attr == h.name)) for n in ast.walk(h)):
+        return None  # recursive
     if any(isinstance(n, (ast.Yield, ast.YieldFrom, ast.Await, ast.Global, ast.Nonlocal)) for n in ast.walk(h)):
         return None
     if h.args.vararg or h.args.kwarg or h.args.kwonlyargs or h.args.posonlyargs:
@@ -1418,6 +1434,8 @@ class _Number(ast.NodeTransformer):
         for n in ast.walk(fn):
             if isinstance(n, (ast.FunctionDef, ast.AsyncFunctionDef)) and n is not fn:
                 self.locals.add(n.name)
+                for a in n.args.args + n.args.kwonlyargs:
+                    self.locals.add(a.arg)
             if isinstance(n, ast.Lambda):
                 for a in n.args.args:
                     self.locals.add(a.arg)
